@@ -27,6 +27,7 @@ EXPLANATION = (
     "must-pass-through of yanked reporting and selection recording (T2), sibling agreement between the builder's unification "
     "predicate and tier 1 (T12), arm table of validate_jsr_specifier (T8)."
 )
+EXPLANATION += " " + 'Plus: defaults of the yanked flag, state machine of the excluded-by-date flag, recording and listing of used yanked packages, probe not skipped for packages already probed for another requirement.'
 NOT_DECIDED = "that the highest satisfying version is selected (arithmetic), yanked/date filtering semantics as data, cached-manifest preference outcomes"
 CONFIGS = ["default", "nofastcheck"]  # thorough tier also analyses the build without fast_check / symbols
 ASSUMPTIONS = ["VersionReq::matches and Version ordering (deno_semver) are correct"]
